@@ -74,6 +74,9 @@ class LPSpec(object):
         if not sc['backend'].get('faults') and \
                 rng.random() < self.real_lane[tier]:
             sc['backend']['policy'] = 'real'
+            if rng.random() < 0.5:
+                sc['backend']['real_tiebreak_seed'] = rng.randrange(
+                    1, 2 ** 31)
         return sc
 
     def build_big(self, rng, tier):
@@ -100,6 +103,8 @@ class LPSpec(object):
                                            rng.random() < 0.3),
                 'flag_order': None}
         sc = scenarios.lp_base(rng, inst, opts, policy='real')
+        if rng.random() < 0.7:
+            sc['backend']['real_tiebreak_seed'] = rng.randrange(1, 2 ** 31)
         sc['big'] = True
         sc['tier'] = tier
         return sc
